@@ -98,7 +98,12 @@ AdmitCells == {[kind |-> "admit", method |-> m, transport |-> t, sid |-> s, eio 
                  en \in Enabled, e3 \in Eio3s}
 EnabledSet(en) == CASE en = "pw" -> {"polling", "websocket"} [] en = "p" -> {"polling"} [] en = "w" -> {"websocket"}
 CfgOf(c) == [enabled |-> EnabledSet(c.enabled), eio3 |-> c.eio3]
-Init == cell \in (IF Mode = "route" THEN RouteCells ELSE AdmitCells)
+\* WebTransport: the application's own HTTP/3 server hands an extended-CONNECT request to the engine (OnWebTransportSession);
+\* the allow-request hook is asked before the session is accepted (an HTTP refusal), everything else is decided by the first
+\* packet on the first stream: "0" opens a session, 0{"sid":..} attaches an upgrade candidate to that session
+\*   first: "new" | "known" (an open polling session) | "unknown" | "closed"
+WtCells == {[kind |-> "wtadmit", hook |-> h, first |-> f] : h \in {"none", "deny"}, f \in {"new", "known", "unknown", "closed"}}
+Init == cell \in (CASE Mode = "route" -> RouteCells [] Mode = "wtadmit" -> WtCells [] OTHER -> AdmitCells)
 Next == UNCHANGED cell
 Spec == Init /\ [][Next]_cell
 
@@ -117,6 +122,13 @@ EmitCell == Emit => PrintT("CELL " \o ToJson(cell))
 \* ---------------------------------------------------------------- checking an observation (used by RoutingMon)
 \* o = what the harness observed for the cell
 RouteObsOK(c, o) == LET ms == Mount(c.attach).segs IN o.engine = Routed(c.attach, PathOf(c.shape, ms)) /\ o.app = ~o.engine
+WtObsOK(c, o) ==
+    IF c.hook = "deny"
+    THEN o.via = "http" /\ o.status = 403 /\ o.code = 4 /\ o.message = Codes["c4"].message /\ o.connErr = 1 /\ ~o.created /\ ~o.disturbed
+    ELSE /\ o.connErr = 0 /\ ~o.disturbed
+         /\ CASE c.first = "new" -> o.created /\ o.via = "open"
+              [] c.first = "known" -> ~o.created /\ o.via = "open" /\ o.upgrading        \* a candidate of that session: only a candidate
+              [] OTHER -> ~o.created /\ o.via = "closed"                                  \* nothing to attach to: the connection is closed
 AdmitObsOK(c, o) ==
     LET cfg == CfgOf(c)
         v == Verdict(c, cfg)
